@@ -430,6 +430,8 @@ def check_history(ctx, text, auto_claim, lf, steps, fails, gen=None):
         for idx, side, new in it:
             done.append([idx, side, new])
             rep = {'check': 'hist', 'text': text, 'auto_claim': auto_claim, 'lf': lf, 'steps': list(done)}
+            if hasattr(ctx, 'current'):
+                ctx.current(rep)
             try:
                 check_set(ctx, text, auto_claim, idx, side, new, fails, d=d, rep=rep)
                 if len(fails) == n0:
